@@ -34,10 +34,14 @@ package ggml
 // Every relative seek has a non-negative offset (a size taken from the file that is negative
 // as an int64 would move back and let the caller decode the same bytes again, for ever), and
 // the one loop whose count is not a range reads at least one byte per iteration.
+// this.ghost_pos is the read position; a successful relative seek moves it by the offset and
+// returns it (C05: "the end offset reported by the decoder equals the file length")
 //@ extern func io.(ReadSeeker).Seek
 //@   requires whence == 1 ==> offset >= 0
-//@   modifies nothing
+//@   modifies this.ghost_pos
 //@   ensures result.1 == nil ==> result.0 >= 0
+//@   ensures result.1 == nil && whence == 1 ==> this.ghost_pos == old(this.ghost_pos) + offset && result.0 == this.ghost_pos
+//@   ensures result.1 != nil ==> this.ghost_pos == old(this.ghost_pos)
 //@ extern func io.(Seeker).Seek
 //@   requires whence == 1 ==> offset >= 0
 //@   modifies nothing
@@ -56,8 +60,27 @@ package ggml
 //@ func readGGUFArray
 //@   modifies llm.scratch
 
+//@ extern func fmt.Errorf
+//@   modifies nothing
+//@   ensures result != nil
+//@ extern func errors.New
+//@   modifies nothing
+//@   ensures result != nil
 //@ func (*gguf).Decode
 //@   requires llm.kv != nil
+// the well-known key the decoder patches is what the default-less accessor KV.ParameterCount
+// relies on: after a successful Decode it is present and holds a uint64 (whatever the file
+// declared under that key) - added after seeded change C10-seed3
+//@   ensures result == nil ==> has(llm.kv, "general.parameter_count") && tagis(llm.kv["general.parameter_count"], "uint64")
+// C05, decoder side of the layout: after the header (Seek #1 reports where it ends) the decoder
+// moves only over the tensors: per tensor the padding of the CURRENT position to the alignment
+// (the same `pad` the writer uses) and the tensor's size. So the end offset is the header end
+// plus that layout, and with no tensors it is the header end itself (added after C05-seed3).
+//@   ghost-at after call Seek #1 : ghost_hdr := result.0
+//@   loop 4 invariant rangeindex == -1 ==> rs.ghost_pos == ghost_hdr
+//@   assert-at call Seek #3 : arg2 == 1 && arg1 == pad(rs.ghost_pos, alignment)
+//@   assert-at call Seek #4 : arg2 == 1 && arg1 == tensor.Size()
+//@   ensures result == nil && len(llm.tensors) == 0 ==> rs.ghost_pos == ghost_hdr
 //@   modifies llm.scratch, llm.kv, llm.tensors, llm.parameters, llm.tensorOffset
 //@   loop 3 invariant 0 <= i && i <= dims
 
@@ -79,6 +102,9 @@ package ggml
 
 //@ func DetectContentType
 //@   modifies nothing
+
+// (KV.ParameterCount calls keyValue[uint64] without a default: it relies on the postcondition
+// of gguf.Decode about "general.parameter_count"; the accessor itself is not under contract)
 
 //@ func keyValue
 //@   requires len(defaultValue) >= 1
